@@ -17,6 +17,9 @@ import (
 	"raven/internal/server/uid"
 )
 
+// writeTimeout is how long a single reply may take to be written to the client
+const writeTimeout = 5 * time.Minute
+
 func handleClient(s *IMAPServer, conn net.Conn, state *models.ClientState) {
 	// Use buffered reader to properly handle command lines and literal data
 	reader := bufio.NewReader(conn)
@@ -129,7 +132,13 @@ func (s *IMAPServer) sendResponse(conn net.Conn, response string) {
 	// Sanitize response for logging to avoid printing large message bodies
 	logResponse := s.sanitizeResponseForLogging(response)
 	fmt.Printf("Server: %s\n", logResponse)
-	_, _ = conn.Write([]byte(response + "\r\n"))
+	// A reply the client does not take within writeTimeout will never be taken: the
+	// client is gone or wedged. Close the connection so that the session ends (the
+	// next read fails) instead of blocking in Write for ever.
+	_ = conn.SetWriteDeadline(time.Now().Add(writeTimeout))
+	if _, err := conn.Write([]byte(response + "\r\n")); err != nil {
+		_ = conn.Close()
+	}
 }
 
 // sanitizeResponseForLogging removes or masks large message bodies from responses
